@@ -238,12 +238,12 @@ class C14(HttpProp):
 def grid_requests(rng, tier, client=1):
     """grammar-generated requests: route x method x client-id form x path-id form x content-type x body class"""
     routes = ["index", "av", "gcv", "as", "snap", "unknown1", "unknown2", "unknown3", "unknown4"]
-    methods = ["GET", "POST", "PUT", "DELETE", "HEAD", "PATCH"]
+    methods = ["GET", "POST", "PUT", "DELETE", "HEAD", "PATCH", "GET/1.0", "POST/1.0", "OPTIONS"]
     cids = ["absent"] + [f"{f}={client}" for f in BAD_CID_FORMS] + [f"{f}={client}" for f in ("hyph", "upper", "simple", "braced", "urn")] + ["hyph=fresh"]
     segs = [f"{f}=latest:{client}" for f in BAD_ID_FORMS] + [f"{f}=latest:{client}" for f in ("hyph", "upper", "simple", "braced", "urn")] + ["hyph=nil", "hyph=fresh"]
     cts = ["history", "history-param", "snapshot", "snapshot-param", "history-upper", "other", "prefix", "empty", "absent",
            "snapshot-prefix", "snapshot-suffix", "snapshot-trunc", "history-trunc", "snapshot-upper", "history-in-param"]
-    bodies = ["e", "e1", "b:1", "r:70", "chunks:1,1", "chunks:30,40,50"]
+    bodies = ["e", "e1", "b:1", "r:70", "chunks:1,1", "chunks:30,40,50", "brk:5", "brk:30,40"]
     reqs = []
     full = tier == "thorough"
     for route in routes:
@@ -273,6 +273,10 @@ def grid_requests(rng, tier, client=1):
             for body in bodies:
                 keep.append(f"http POST av hyph=latest:{client} hyph={client} {ct} {body}")
                 keep.append(f"http POST as hyph=latest:{client} hyph={client} {ct} {body}")
+        for m in ("GET/1.0", "POST/1.0"):
+            for route, ct in (("av", "history"), ("gcv", "absent"), ("as", "snapshot"), ("snap", "absent"), ("index", "absent"), ("unknown1", "absent")):
+                seg = f"hyph=latest:{client}" if route in ("av", "gcv", "as") else "-"
+                keep.append(f"http {m} {route} {seg} hyph={client} {ct} b:5")
         reqs = keep
     # refused requests of a client the server has never seen (nothing may be created for it)
     for body in ("e", "e1"):
